@@ -13,7 +13,7 @@ Local Open Scope N_scope.
    none at all for a strict listener.  [selects] never mentions the index or the scan. *)
 Theorem C11_get_cert_spec : forall certs sn strict,
   certs <> [] -> (strict = true \/ 2 <= length certs)%nat ->
-  selects certs strict (normalize sn) (store_pick certs sn strict).
+  selects (folded certs) strict (normalize sn) (store_pick certs sn strict).
 Proof. exact get_cert_spec. Qed.
 Print Assumptions C11_get_cert_spec.
 
@@ -32,9 +32,9 @@ Print Assumptions C11_empty_store_err.
 
 Theorem C11_strict_none : forall certs sn,
   store_pick certs sn true = PNone ->
-  none_with certs (normalize sn) /\
+  none_with (folded certs) (normalize sn) /\
   forall k, (k < length (split_byte (normalize sn) 46))%nat ->
-            none_with certs (candidate (split_byte (normalize sn) 46) k).
+            none_with (folded certs) (candidate (split_byte (normalize sn) 46) k).
 Proof. exact strict_none. Qed.
 Print Assumptions C11_strict_none.
 
@@ -46,12 +46,18 @@ Theorem C11_request_trailing_dots : forall sn k, normalize (sn ++ repeat 46 k) =
 Proof. exact normalize_trailing_dots. Qed.
 Print Assumptions C11_request_trailing_dots.
 
-(* finding F-C11-2: certificate names are not case-folded, so a certificate whose name
-   contains an upper-case letter is not found by its own name *)
+(* F-C11-2 (repaired in /repo by a fix: commit): the index used to keep the certificate's own
+   spelling, so a certificate whose name contains an upper-case letter was not found by its
+   own name; [folded] in the theorems above is the repaired behaviour *)
 Theorem C11_upper_case_cert_name_refuted :
-  exists certs sn, has_name certs 1 sn /\ store_pick certs sn false = PCert 0.
+  exists certs sn, has_name certs 1 sn /\
+    get_certificate certs (Some (build_from_unfolded 0 certs)) sn false = PCert 0.
 Proof. exact upper_case_cert_name_refuted. Qed.
 Print Assumptions C11_upper_case_cert_name_refuted.
+Theorem C11_upper_case_cert_name_found :
+  store_pick [[bs "a.com"%string]; [bs "Foo.com"%string]] (bs "fOO.com."%string) false = PCert 1.
+Proof. exact upper_case_cert_name_found. Qed.
+Print Assumptions C11_upper_case_cert_name_found.
 
 (* Every interleaving of set replacements and handshakes: each handshake is answered from
    exactly the set that was current when it loaded the store - never a mixture. *)
